@@ -74,6 +74,7 @@ type Scn struct {
 	Race     bool             `json:"race"`
 	MapSeed  uint64           `json:"mapseed"`
 	Mode     string           `json:"mode,omitempty"`
+	NoDryRun bool             `json:"no_dry_run,omitempty"` // first-use scenarios (C19): the first execution is the point
 	Objects  []Object         `json:"objects,omitempty"`
 	Phases   []Phase          `json:"phases,omitempty"`
 	Faults   []Fault          `json:"faults,omitempty"`
